@@ -283,3 +283,13 @@ func HarnessError(format string, a ...interface{}) {
 	fmt.Printf("HARNESS-ERROR "+format+"\n", a...)
 	os.Exit(2)
 }
+
+// Sub-commands (worker entry points) that checks register for their own
+// subprocess sharding: `vcheck <name> args...`.
+var subcmds = map[string]func(args []string) int{}
+
+// RegisterCmd registers a worker sub-command.
+func RegisterCmd(name string, f func(args []string) int) { subcmds[name] = f }
+
+// LookupCmd finds a worker sub-command.
+func LookupCmd(name string) func(args []string) int { return subcmds[name] }
